@@ -66,6 +66,8 @@ func protoFactory(name string) (*frugal.FProtocolFactory, error) {
 		return frugal.NewFProtocolFactory(thrift.NewTBinaryProtocolFactoryConf(nil)), nil
 	case "compact":
 		return frugal.NewFProtocolFactory(thrift.NewTCompactProtocolFactoryConf(nil)), nil
+	case "json":
+		return frugal.NewFProtocolFactory(thrift.NewTJSONProtocolFactory()), nil
 	}
 	return nil, fmt.Errorf("unknown protocol %q", name)
 }
